@@ -162,7 +162,10 @@ NOTES = {'C06': 'finding on the current tree (replayed natively): C06.g.ieee Nei
 _BID_TUS = ['src/Geometry/BiTargetCheckDistance.cpp', 'src/Geometry/ABiTargetCheck.cpp', 'src/Geometry/GeometryHelper.cpp', 'src/Core/matrix.cpp',
             'src/Basic/VectorHelper.cpp', 'src/Basic/Utilities.cpp', 'src/Basic/AStringable.cpp', 'src/Space/SpacePoint.cpp']
 _BID_STUBS = ['the two SpaceTarget objects are raw storage: only _coord (a real VectorDouble of size 2, read by SpacePoint::getCoord) is built']
-for _tag, _entry, _rot, _tiers, _btxt, _stubs in (
+for _tag, _entry, _rot, _tiers, _btxt, _stubs in tuple(
+        ('rot%d' % _ang, 'k_bidist_aniso', 4, ('quick', 'thorough'),
+         'anisotropy coefficients k/4 with k = 1..16 (0.25 .. 4), rotation angle %d degrees (exact cos/sin of the real GH::rotationGetSinCos); radius any integer |radius| <= 256' % _ang, [])
+        for _ang in (90, 180, 270)) + (
         ('iso', 'k_bidist_iso', 0, ('quick', 'thorough'), 'isotropic checker (no coefficients): radius any half-integer with |radius| <= 128', []),
         ('ani', 'k_bidist_aniso', 0, ('quick', 'thorough'), 'anisotropy coefficients k/4 with k = 1..16 (0.25 .. 4), no angle given; radius any integer |radius| <= 256', []),
         ('rot', 'k_bidist_aniso', 1, ('quick', 'thorough'),
@@ -170,13 +173,11 @@ for _tag, _entry, _rot, _tiers, _btxt, _stubs in (
          ['GeometryHelper::rotationGetSinCos -> an arbitrary pair of reals (c, s) (the reference uses the same two numbers)']),
         ('rot0', 'k_bidist_aniso', 3, ('quick', 'thorough'),
          'anisotropy coefficients k/4 with k = 1..16 (0.25 .. 4), rotation angle 0 given explicitly (no rotation applied); radius any integer |radius| <= 256', []),
-        ('rot90', 'k_bidist_aniso', 4, ('quick', 'thorough'),
-         'anisotropy coefficients k/4 with k = 1..16 (0.25 .. 4), rotation angle 90, 180 or 270 degrees (exact cos/sin of GH::rotationGetSinCos); radius any integer |radius| <= 256', []),
         ('rot35', 'k_bidist_aniso', 2, ('quick', 'thorough'),
          'anisotropy coefficients k/4 with k = 1..16 (0.25 .. 4), rotation (cos, sin) = (3/5, 4/5) as doubles; radius any integer |radius| <= 256',
          ['GeometryHelper::rotationGetSinCos -> (3/5, 4/5) whatever the (non-zero) angle'])):
     K('C06.i.' + _tag, property='C06', engine='symex', harness='C06/bidist.cpp', entry=_entry, tus=_BID_TUS,
-      defines={'all': {'VF_ROT': _rot, 'VF_G': 64}}, tiers=_tiers,
+      defines={'all': dict({'VF_ROT': _rot, 'VF_G': 64}, **({'VF_ANGLE': _tag[3:] + '.'} if _rot == 4 else {}))}, tiers=_tiers,
       bounds={'quick': '2-D; ' + ('target and sample anywhere on the integer grid |v| <= 64; ' if _tag == 'iso' else 'sample on the integer grid |v| <= 64, target = sample + integer increment |d| <= 128 per axis; ') + _btxt},
       timeout_ms={'quick': 120000, 'thorough': 600000}, validate={'quick': 120, 'thorough': 240}, validate_doubles='int',
       what='BiTargetCheckDistance(radius, coeffs, angles) constructor (with GH::rotationMatrixInPlace / rotation2DMatrixInPlace / rotationGetSinCos, VH::isConstant), '
@@ -187,3 +188,39 @@ for _tag, _entry, _rot, _tiers, _btxt, _stubs in (
           'that (cos, sin) is a point of the unit circle (libm)',
       assumptions=['real-arithmetic reading: sqrt is the exact non-negative root'],
       stubs=_BID_STUBS + _stubs)
+
+
+# ---------------------------------------------------------------- C06.h NeighMoving::getNeigh/_moving candidate loop and glue (harness/C06/moving.cpp; C05.d is the same harness)
+_MOV_TUS = ['src/Neigh/NeighMoving.cpp', 'src/Neigh/ANeigh.cpp', 'src/Db/Db.cpp', 'src/Basic/VectorHelper.cpp', 'src/Geometry/BiTargetCheckDistance.cpp',
+            'src/Geometry/ABiTargetCheck.cpp', 'src/Geometry/GeometryHelper.cpp', 'src/Basic/AStringable.cpp', 'src/Basic/Utilities.cpp']
+_MOV_STUBS = [
+    'NeighMoving object is raw storage (no constructor): _dbin, _dbout, _dbgrid (both), _flagSimu, _flagXvalid, _flagKFold, _useBallSearch, _nMini, _nMaxi, _nSect = 1, _nSMax, '
+    '_movingInd/_movingDst/_movingIsect/_movingNsect sized as attach() does, _biPtDist, _bipts',
+    'the two Db objects are raw storage + the vptr of harness class MovDb; _nech set (read by the real Db::isSampleIndexValid)',
+    'Db::getSampleNumber -> VF_NECH; Db::isActive -> symbolic act[iech]',
+    'Db::getSampleAsSTInPlace -> loads nothing, remembers which sample sits in T2 (asserts that T1 receives sample iech_out of the output Db)',
+    'Db::getLocNumber -> symbolic 0 or 2 for ELoc::Z, 2 for ELoc::SIMU (recognised by address); Db::getZVariable / getLocVariable(SIMU) -> TEST or a grid value per symbolic undefined-pattern tables',
+    'ANeigh::_xvalid -> symbolic xv[iech_in]; ASpaceObject::getNDim -> 2; OptDbg::query -> false',
+    'BiTargetCheckDistance::isOK -> symbolic in[i] for the sample loaded in T2 and leaves the symbolic distance d[i] in _dist (read by the real getDistance()); the object is built by its real default constructor',
+    'two harness subclasses of ABiTargetCheck in _bipts answering symbolic ok1[i], ok2[i]',
+    'operator new(size_t, nothrow_t) -> nullptr (std::get_temporary_buffer of std::stable_sort: libstdc++ then runs its buffer-less in-place stable sort; same stub as C11.e)',
+]
+_MOV_ASSUME = ['nmaxi > 0 (documented meaning: maximum number of samples; nmaxi <= 0 disables the selection step)',
+               'distances are pairwise distinct non-negative integer-valued reals below 2^22: ties are excluded by the property and _moving deliberately perturbs the k-th '
+               'candidate distance by distmax*k*1e-9 (< 1 here), so distances closer than that tolerance count as ties',
+               'undefined value is TEST = 1.234e30 (FFFF(x) is x > 1e30 in the NaN-free reading)',
+               'single angular sector (sector assignment and quotas: C06.a, C06.b, C06.g); no ball-tree search']
+for _n, _tiers in ((3, ('quick', 'thorough')), (4, ('thorough',))):
+    K('C06.h.%d' % _n, property='C06', engine='symex', harness='C06/moving.cpp', entries=['k_moving_m%d' % _m for _m in range(1 << _n)], tus=_MOV_TUS,
+      defines={'all': {'VF_NECH': _n}}, tiers=_tiers, cxxflags=['-fno-sanitize=vptr'],
+      bounds={'quick': 'exactly %d samples in the input Db, every admissibility pattern (one entry per pattern, 2^%d) and for an inadmissible sample every combination of reasons '
+                       '(masked, all variables undefined for the Z or SIMU locator with 0 or 2 variables, cross-validation exclusion, two extra pair checkers, distance checker); '
+                       'arbitrary nmini, arbitrary nmaxi > 0, arbitrary distinct integer-valued distances in any order; cross-validation and simulation flags arbitrary' % (_n, _n)},
+      timeout_ms={'quick': 120000, 'thorough': 600000}, validate={'quick': 30, 'thorough': 60}, validate_doubles='int',
+      what='NeighMoving::getNeigh, _moving (candidate loop, nmini tests, tie-breaking perturbation), ANeigh::_discardUndefined + Db::isAllUndefined/isAllUndefinedByType, '
+           'VH::arrangeInPlace (orderRanks with std::stable_sort, reorder, copy), _movingSelect, ANeigh::_neighCompress: the returned ranks are exactly the min(nmaxi, n) closest '
+           'admissible samples (by increasing rank), the sorted candidate list holds exactly the admissible samples by increasing distance, no masked or all-undefined sample is '
+           'returned, and the result is empty when fewer than nmini samples are admissible',
+      out='angular sectors (C06.a/b/g); the ball-tree pre-selection; the real distance test (C06.i) and the real cross-validation test (distance_inter / code comparison); '
+          'near-ties within the perturbation tolerance',
+      assumptions=_MOV_ASSUME, stubs=_MOV_STUBS)
